@@ -108,6 +108,14 @@ def eval_literal(F: Facts, m: Module, node: ast.AST, _depth: int = 0, env: Optio
         if isinstance(node, ast.SetComp):
             return set(out)
         return out
+    if isinstance(node, ast.Call) and node.keywords and isinstance(node.func, ast.Attribute) and node.func.attr == 'format' \
+            and all(k.arg for k in node.keywords):
+        recv = ev(node.func.value)
+        if isinstance(recv, str):
+            try:
+                return recv.format(*[ev(a) for a in node.args], **{k.arg: ev(k.value) for k in node.keywords})
+            except Exception as e:
+                raise NotLiteral('%s: %s' % (norm(node), e))
     if isinstance(node, ast.Call) and not node.keywords:
         if isinstance(node.func, ast.Attribute):
             recv = ev(node.func.value)
@@ -471,9 +479,20 @@ def extract_lexer(F: Facts, g: Optional[Grammar] = None) -> LexSpec:
                 continue
             if tn == 'ignore' or tn.startswith('ignore_'):
                 raise AnalysisError('lexer: %s as a function is not modelled' % name)
-            if node.decorator_list:
-                raise AnalysisError('lexer: decorated token rule %s is not modelled' % name)
             doc = ast.get_docstring(node, clean=False)
+            if node.decorator_list:
+                # @TOKEN(<regex expression>) from ply.lex sets the rule's regex; the expression must fold to a string
+                if len(node.decorator_list) == 1 and isinstance(node.decorator_list[0], ast.Call) and len(node.decorator_list[0].args) == 1 \
+                        and not node.decorator_list[0].keywords \
+                        and F.resolve_expr(lex_m, node.decorator_list[0].func) in (('ext', 'smartquery.ply.lex.TOKEN'), ('ext', 'smartquery.ply.lex.Token')):
+                    try:
+                        doc = eval_literal(F, lex_m, node.decorator_list[0].args[0])
+                    except NotLiteral as e:
+                        raise AnalysisError('lexer: the regex of @TOKEN rule %s does not fold to a constant: %s' % (name, e))
+                    if not isinstance(doc, str):
+                        raise AnalysisError('lexer: the regex of @TOKEN rule %s is not a string' % name)
+                else:
+                    raise AnalysisError('lexer: decorated token rule %s is not modelled' % name)
             if not doc:
                 raise AnalysisError('lexer: rule %s has no regex docstring' % name)
             frules.append(LexRule(tn, doc, node, node.lineno))
